@@ -79,6 +79,7 @@ type c15Env struct {
 	how    string // "call", "go", "defer", "callback"
 	pre    []c15Set
 	depth  int
+	tab    int // 1-based position in a literal table of steps the call went through (0 = none)
 }
 
 func (e *c15Env) lexOf() *c15Env {
@@ -222,6 +223,9 @@ func (x *c15X) funcValues(v ssa.Value, env *c15Env, depth int) (out []c15Target,
 // (interface method calls and builtins are neither targets nor unknown).
 func (x *c15X) callTargets(cc *ssa.CallCommon, env *c15Env) (out []c15Target, unknown bool) {
 	if cc.IsInvoke() {
+		if tg, ok := x.invokeTarget(cc, env); ok {
+			return []c15Target{tg}, false
+		}
 		return nil, false
 	}
 	switch t := cc.Value.(type) {
@@ -233,6 +237,106 @@ func (x *c15X) callTargets(cc *ssa.CallCommon, env *c15Env) (out []c15Target, un
 		return x.funcValues(t, env, 0)
 	}
 	return x.funcValues(cc.Value, env, 0)
+}
+
+// invokeTarget resolves an interface method call whose dynamic type is known:
+// the receiver is (or is a state field stored exactly once from) a value boxed
+// from a concrete type, or the interface is declared in the program and
+// exactly one named type of the program implements it (a single-implementation
+// seam). Library interfaces without such evidence (clocks, tickers) stay opaque.
+func (x *c15X) invokeTarget(cc *ssa.CallCommon, env *c15Env) (c15Target, bool) {
+	recv, renv := x.strip(cc.Value, env)
+	var boxed ssa.Value
+	switch t := recv.(type) {
+	case *ssa.MakeInterface:
+		boxed = t.X
+	case *ssa.UnOp:
+		if fa, ok := t.X.(*ssa.FieldAddr); ok && t.Op == token.MUL {
+			if sts := x.fieldStores(fieldIDOfAddr(fa)); len(sts) == 1 {
+				if mi, ok := sts[0].Val.(*ssa.MakeInterface); ok {
+					boxed, renv = mi.X, nil
+				}
+			}
+		}
+	}
+	lookup := func(T types.Type) *ssa.Function {
+		sel := x.p.SSA.MethodSets.MethodSet(T).Lookup(cc.Method.Pkg(), cc.Method.Name())
+		if sel == nil {
+			return nil
+		}
+		if mo, ok := sel.Obj().(*types.Func); ok {
+			// the declared (possibly generic) method: instantiations are not needed
+			if f := x.p.SSA.FuncValue(mo.Origin()); f != nil {
+				return f
+			}
+		}
+		return nil
+	}
+	if boxed != nil {
+		if f := lookup(boxed.Type()); f != nil {
+			return c15Target{Fn: x.unwrap(f), Bound: []ssa.Value{boxed}, BEnv: renv}, true
+		}
+		return c15Target{}, false
+	}
+	// a seam declared in the program with a single implementation in the program
+	iface, _ := cc.Value.Type().Underlying().(*types.Interface)
+	named, isNamed := types.Unalias(cc.Value.Type()).(*types.Named)
+	if iface == nil || !isNamed || named.Obj().Pkg() == nil || !strings.HasPrefix(named.Obj().Pkg().Path(), x.p.ModPath) {
+		return c15Target{}, false
+	}
+	var impl []types.Type
+	for _, pkg := range x.p.Pkgs {
+		if !strings.HasPrefix(pkg.PkgPath, x.p.ModPath) {
+			continue
+		}
+		sc := pkg.Types.Scope()
+		for _, nm := range sc.Names() {
+			tn, ok := sc.Lookup(nm).(*types.TypeName)
+			if !ok || tn.IsAlias() {
+				continue
+			}
+			T := tn.Type()
+			if _, isI := T.Underlying().(*types.Interface); isI {
+				continue
+			}
+			if nt, ok := T.(*types.Named); ok && nt.TypeParams().Len() > 0 {
+				// generic implementation: matched by method names (instantiation is not attempted)
+				ms := types.NewMethodSet(types.NewPointer(T))
+				all := iface.NumMethods() > 0
+				for i := 0; i < iface.NumMethods(); i++ {
+					if ms.Lookup(iface.Method(i).Pkg(), iface.Method(i).Name()) == nil {
+						all = false
+					}
+				}
+				if all {
+					impl = append(impl, types.NewPointer(T))
+				}
+				continue
+			}
+			if types.Implements(T, iface) {
+				impl = append(impl, T)
+			} else if types.Implements(types.NewPointer(T), iface) {
+				impl = append(impl, types.NewPointer(T))
+			}
+		}
+	}
+	if len(impl) != 1 {
+		return c15Target{}, false
+	}
+	ms := types.NewMethodSet(impl[0])
+	sel := ms.Lookup(cc.Method.Pkg(), cc.Method.Name())
+	if sel == nil {
+		return c15Target{}, false
+	}
+	mobj, _ := sel.Obj().(*types.Func)
+	if mobj == nil {
+		return c15Target{}, false
+	}
+	f := x.p.SSA.FuncValue(mobj.Origin())
+	if f == nil {
+		return c15Target{}, false
+	}
+	return c15Target{Fn: origin(f), Bound: []ssa.Value{recv}, BEnv: renv}, true
 }
 
 // activate builds the activation of tgt for a call with the given arguments
@@ -1050,10 +1154,59 @@ func (c *c15Ctx) factsWhen(v ssa.Value, want bool, env *c15Env, depth int) (fact
 		if nb, _, _, ok := x.timeMethod(b, senv); ok {
 			c.Opaque = append(c.Opaque, "comparison of time.Time."+nb+"() results")
 		}
+		// max(x, K) ⋈ K for a constant K: max(x,K) != K / > K  ⇒ x > K ; == K / <= K ⇒ x <= K
+		for _, pr := range [][2]ssa.Value{{a, b}, {b, a}} {
+			mc, isCall := pr[0].(*ssa.Call)
+			kc, isK := pr[1].(*ssa.Const)
+			if !isCall || !isK || builtinName(mc) != "max" || len(mc.Call.Args) != 2 {
+				continue
+			}
+			for _, ar := range [][2]ssa.Value{{mc.Call.Args[0], mc.Call.Args[1]}, {mc.Call.Args[1], mc.Call.Args[0]}} {
+				k2, isK2 := ar[1].(*ssa.Const)
+				if !isK2 || k2.Value == nil || kc.Value == nil || k2.Value.Kind() != constant.Int || kc.Value.Kind() != constant.Int || !constant.Compare(k2.Value, token.EQL, kc.Value) {
+					continue
+				}
+				o := op
+				if pr[0] == b {
+					o = flipOp(op)
+				}
+				switch o {
+				case token.NEQ, token.GTR:
+					facts.add(c15Rel(token.GTR, x.term(ar[0], senv), x.term(kc, senv))...)
+					return
+				case token.EQL, token.LEQ:
+					facts.add(c15Rel(token.LEQ, x.term(ar[0], senv), x.term(kc, senv))...)
+					return
+				}
+			}
+		}
+		// the result of a phase helper compared with a constant (a small enum, a
+		// count): what the returns that can produce such a value establish
+		if op == token.EQL || op == token.NEQ {
+			for _, pr := range [][2]ssa.Value{{a, b}, {b, a}} {
+				kc, isK := pr[1].(*ssa.Const)
+				if !isK || kc.Value == nil || depth >= 6 || senv.depthOf() >= 6 {
+					continue
+				}
+				if _, isConst := pr[0].(*ssa.Const); isConst {
+					continue
+				}
+				if f, vac, ok := c.enumFacts(pr[0], senv, kc, op == token.EQL, depth); ok {
+					return f, vac
+				}
+			}
+		}
 		ta, tb := x.term(a, senv), x.term(b, senv)
 		facts.add(c15Rel(op, ta, tb)...)
 		return
 	case *ssa.Extract:
+		// a flag returned (among other results) by a phase helper of the program:
+		// what each of its returns says about the flag
+		if call, isCall := t.Tuple.(*ssa.Call); isCall && depth < 6 && senv.depthOf() < 6 {
+			if f, vac, ok := c.helperResultFacts(call, t.Index, want, senv, depth); ok {
+				return f, vac
+			}
+		}
 		// comma-ok of a call / lookup / type assertion
 		tup := t.Tuple
 		tt, ok := tup.Type().(*types.Tuple)
@@ -1131,59 +1284,9 @@ func (c *c15Ctx) factsWhen(v ssa.Value, want bool, env *c15Env, depth int) (fact
 		}
 		// boolean helpers / predicates: static callees, bound methods, closures and
 		// func values whose possible targets are all known are looked through
-		if ts, unknown := x.callTargets(&t.Call, senv); !unknown && len(ts) > 0 && depth < 6 && senv.depthOf() < 6 {
-			all := true
-			for _, tg := range ts {
-				if !x.inlinable(tg.Fn) || tg.Fn.Signature.Results().Len() != 1 {
-					all = false
-				}
-			}
-			if all {
-				first := true
-				var acc c15Set
-				for _, tg := range ts {
-					nenv := x.activate(tg, t.Call.Args, senv, t, "call")
-					for _, b := range tg.Fn.Blocks {
-						if (b.Index != 0 && len(b.Preds) == 0) || len(b.Instrs) == 0 {
-							continue
-						}
-						ret, ok := b.Instrs[len(b.Instrs)-1].(*ssa.Return)
-						if !ok || len(ret.Results) != 1 {
-							continue
-						}
-						rf, vac := c.factsWhen(ret.Results[0], want, nenv, depth+2)
-						if vac {
-							continue
-						}
-						// facts of the paths to this return: the intersection over
-						// its paths (a conjunction must hold on each)
-						ps := c.paths(b, nenv)
-						if len(ps) == 0 {
-							continue // unreachable return
-						}
-						var pf c15Set
-						for i, p1 := range ps {
-							if i == 0 {
-								pf = p1
-							} else {
-								pf = pf.intersect(p1)
-							}
-						}
-						rf = rf.union(pf)
-						if rf.contradictory() {
-							continue
-						}
-						if first {
-							acc, first = rf, false
-						} else {
-							acc = acc.intersect(rf)
-						}
-					}
-				}
-				if first {
-					return facts, true
-				}
-				return acc, false
+		if depth < 6 && senv.depthOf() < 6 {
+			if f, vac, ok := c.helperResultFacts(t, 0, want, senv, depth); ok {
+				return f, vac
 			}
 		}
 		// an unknown call fed with an expiry or an entry: remember
@@ -1240,6 +1343,150 @@ func (x *c15X) sinceCall(call *ssa.Call, env *c15Env) (now c15Term, arg ssa.Valu
 		return c15Term{Key: fmt.Sprintf("now:%p", call), Kind: c15Now, V: call}, args[0], true
 	}
 	return
+}
+
+// enumFacts: the facts that hold whenever v == kc (wantEq) / v != kc, for a
+// value produced by phase helpers of the program returning constants (a
+// small enum, a count), possibly forwarded through other helpers and phis.
+// ok=false if v is not such a value.
+func (c *c15Ctx) enumFacts(v ssa.Value, env *c15Env, kc *ssa.Const, wantEq bool, depth int) (c15Set, bool, bool) {
+	x := c.x
+	if depth > 8 {
+		return nil, false, false
+	}
+	sv, senv := x.strip(v, env)
+	switch t := sv.(type) {
+	case *ssa.Const:
+		if t.Value == nil || t.Value.Kind() != kc.Value.Kind() {
+			return nil, false, false
+		}
+		if constant.Compare(t.Value, token.EQL, kc.Value) != wantEq {
+			return nil, true, true
+		}
+		return c15Set{}, false, true
+	case *ssa.Phi:
+		if c.seen[t] {
+			return nil, false, false
+		}
+		c.seen[t] = true
+		defer delete(c.seen, t)
+		first := true
+		var acc c15Set
+		blk := t.Block()
+		for i, ev := range t.Edges {
+			pred := blk.Preds[i]
+			ef, vac, ok := c.enumFacts(ev, senv, kc, wantEq, depth+1)
+			if !ok {
+				ef, vac = c15Set{}, false
+			}
+			if vac {
+				continue
+			}
+			edge, never := c.edgeFactsX(pred, blk, senv, depth+1)
+			if never {
+				continue
+			}
+			ef = ef.union(c.domFacts(pred, senv, depth+1)).union(edge)
+			if ef.contradictory() {
+				continue
+			}
+			if first {
+				acc, first = ef, false
+			} else {
+				acc = acc.intersect(ef)
+			}
+		}
+		if first {
+			return c15Set{}, true, true
+		}
+		return acc, false, true
+	}
+	idx := 0
+	call, _ := sv.(*ssa.Call)
+	if ex, isEx := sv.(*ssa.Extract); isEx {
+		if cl, isCl := ex.Tuple.(*ssa.Call); isCl {
+			call, idx = cl, ex.Index
+		}
+	}
+	if call == nil || senv.depthOf() >= 6 {
+		return nil, false, false
+	}
+	return c.helperResultMatch(call, idx, senv, depth, func(rv ssa.Value, e *c15Env) (c15Set, bool) {
+		if f, vac, ok := c.enumFacts(rv, e, kc, wantEq, depth+2); ok {
+			return f, vac
+		}
+		return c15Set{}, false
+	})
+}
+
+// helperResultFacts: the facts that hold whenever result #idx of call (a call
+// into functions of the program, all possible targets known) has value want:
+// for every return of every target, the facts of the returned value plus the
+// facts common to the paths reaching that return; the intersection over the
+// returns that can produce want. ok=false if the call cannot be looked through.
+func (c *c15Ctx) helperResultFacts(call *ssa.Call, idx int, want bool, senv *c15Env, depth int) (facts c15Set, vacuous bool, ok bool) {
+	return c.helperResultMatch(call, idx, senv, depth, func(rv ssa.Value, env *c15Env) (c15Set, bool) {
+		return c.factsWhen(rv, want, env, depth+2)
+	})
+}
+
+// helperResultMatch is helperResultFacts for an arbitrary condition on the
+// result: match tells, for a returned value, the facts that hold when the
+// condition is met by it, or that it can never meet it.
+func (c *c15Ctx) helperResultMatch(call *ssa.Call, idx int, senv *c15Env, depth int, match func(rv ssa.Value, env *c15Env) (c15Set, bool)) (facts c15Set, vacuous bool, ok bool) {
+	x := c.x
+	ts, unknown := x.callTargets(&call.Call, senv)
+	if unknown || len(ts) == 0 {
+		return nil, false, false
+	}
+	for _, tg := range ts {
+		if !x.inlinable(tg.Fn) || tg.Fn.Signature.Results().Len() <= idx || x.onStack(senv, tg.Fn) {
+			return nil, false, false
+		}
+	}
+	first := true
+	var acc c15Set
+	for _, tg := range ts {
+		nenv := x.activate(tg, call.Call.Args, senv, call, "call")
+		for _, b := range tg.Fn.Blocks {
+			if (b.Index != 0 && len(b.Preds) == 0) || len(b.Instrs) == 0 {
+				continue
+			}
+			ret, isRet := b.Instrs[len(b.Instrs)-1].(*ssa.Return)
+			if !isRet || len(ret.Results) <= idx {
+				continue
+			}
+			rf, vac := match(ret.Results[idx], nenv)
+			if vac {
+				continue
+			}
+			ps := c.paths(b, nenv)
+			if len(ps) == 0 {
+				continue // unreachable return
+			}
+			var pf c15Set
+			for i, p1 := range ps {
+				if i == 0 {
+					pf = p1
+				} else {
+					pf = pf.intersect(p1)
+				}
+			}
+			rf = rf.union(pf)
+			if rf.contradictory() {
+				continue
+			}
+			if first {
+				acc, first = rf, false
+			} else {
+				acc = acc.intersect(rf)
+			}
+		}
+	}
+	if first {
+		return c15Set{}, true, true
+	}
+	return acc, false, true
 }
 
 func callDescC15(c *ssa.Call) string {
@@ -1557,6 +1804,111 @@ func (x *c15X) onStack(env *c15Env, f *ssa.Function) bool {
 	return false
 }
 
+// c15TableElems: v is an element, selected by a variable index, of a literal
+// array / slice of func values; returns the element values in table order.
+func c15TableElems(v ssa.Value) ([]ssa.Value, *ssa.IndexAddr, bool) {
+	u, ok := v.(*ssa.UnOp)
+	if !ok || u.Op != token.MUL {
+		return nil, nil, false
+	}
+	ia, ok := u.X.(*ssa.IndexAddr)
+	if !ok {
+		return nil, nil, false
+	}
+	if _, isConst := ia.Index.(*ssa.Const); isConst {
+		return nil, nil, false
+	}
+	base := ia.X
+	if sl, isSl := base.(*ssa.Slice); isSl {
+		base = sl.X
+	}
+	arr, ok := base.(*ssa.Alloc)
+	if !ok {
+		return nil, nil, false
+	}
+	at, ok := deref(arr.Type()).Underlying().(*types.Array)
+	if !ok {
+		return nil, nil, false
+	}
+	if _, isSig := at.Elem().Underlying().(*types.Signature); !isSig {
+		return nil, nil, false
+	}
+	elems := make([]ssa.Value, at.Len())
+	for _, r := range refs(arr) {
+		ea, isEA := r.(*ssa.IndexAddr)
+		if !isEA || ea == ia {
+			continue
+		}
+		kc, isK := ea.Index.(*ssa.Const)
+		if !isK {
+			continue
+		}
+		i := int(kc.Int64())
+		for _, rr := range refs(ea) {
+			if st, isSt := rr.(*ssa.Store); isSt && st.Addr == ea && i >= 0 && i < len(elems) {
+				if elems[i] != nil {
+					return nil, nil, false
+				}
+				elems[i] = st.Val
+			}
+		}
+	}
+	for _, e := range elems {
+		if e == nil {
+			return nil, nil, false
+		}
+	}
+	return elems, ia, len(elems) > 0
+}
+
+// c15TableLoopRunsAll: the call of a table element (index ia.Index) sits in a
+// counted loop whose every iteration executes it and which is left only by
+// its header test (no break / return in the body): all elements run, in order.
+func c15TableLoopRunsAll(ia *ssa.IndexAddr, call ssa.Instruction) bool {
+	var phi *ssa.Phi
+	switch t := ia.Index.(type) {
+	case *ssa.Phi:
+		phi = t
+	case *ssa.BinOp:
+		if p, ok := t.X.(*ssa.Phi); ok && t.Op == token.ADD {
+			phi = p
+		}
+	}
+	if phi == nil {
+		return false
+	}
+	h := phi.Block()
+	reach := func(from *ssa.BasicBlock) bool { return reachableFrom(from, nil)[h] }
+	nLatch := 0
+	for _, p := range h.Preds {
+		if h.Dominates(p) {
+			nLatch++
+			if !call.Block().Dominates(p) && call.Block() != p {
+				return false
+			}
+		}
+	}
+	if nLatch == 0 {
+		return false
+	}
+	for _, b := range h.Parent().Blocks {
+		if b == h || !h.Dominates(b) || !reach(b) {
+			continue
+		}
+		for _, s := range b.Succs {
+			if s != h && !reach(s) && len(s.Succs) > 0 {
+				return false // leaves the loop from its body
+			}
+			if s != h && !reach(s) {
+				if _, isRet := s.Instrs[len(s.Instrs)-1].(*ssa.Return); isRet {
+					return false
+				}
+			}
+		}
+	}
+	return true
+}
+
 // walk visits every instruction executed by an activation of fn, following
 // calls (static, bound methods, closures, func values with known targets,
 // go / defer) into the functions of the program, and function-typed arguments
@@ -1567,11 +1919,13 @@ func (x *c15X) onStack(env *c15Env, f *ssa.Function) bool {
 func (x *c15X) walk(ctx *c15Ctx, fn *ssa.Function, env *c15Env, skip func(*ssa.Function) bool, visit func(in ssa.Instruction, env *c15Env), unknown func(in ssa.Instruction, env *c15Env)) {
 	root := fn
 	var rec func(fn *ssa.Function, env *c15Env)
+	tab := 0
 	enter := func(tg c15Target, args []ssa.Value, env *c15Env, in ssa.Instruction, how string) {
 		if !x.inlinable(tg.Fn) || (skip != nil && skip(tg.Fn)) || x.onStack(env, tg.Fn) || tg.Fn == root || env.depthOf() > 8 {
 			return
 		}
 		nenv := x.activate(tg, args, env, in, how)
+		nenv.tab = tab
 		nenv.pre = ctx.at(in.Block(), env)
 		rec(tg.Fn, nenv)
 	}
@@ -1593,6 +1947,21 @@ func (x *c15X) walk(ctx *c15Ctx, fn *ssa.Function, env *c15Env, skip func(*ssa.F
 					how = "go"
 				case *ssa.Defer:
 					how = "defer"
+				}
+				// a step taken from a literal table: every element, in table order
+				if elems, _, isTab := c15TableElems(cc.Value); isTab {
+					for i, e := range elems {
+						fts, unk := x.funcValues(e, env, 0)
+						if unk && unknown != nil {
+							unknown(in, env)
+						}
+						tab = i + 1
+						for _, tg := range fts {
+							enter(tg, cc.Args, env, in, how)
+						}
+						tab = 0
+					}
+					continue
 				}
 				ts, unk := x.callTargets(cc, env)
 				if unk && unknown != nil {
@@ -1644,6 +2013,35 @@ func (x *c15X) must(fn *ssa.Function, env *c15Env, ev func(in ssa.Instruction, e
 			x.mustUnsure = true
 			return false
 		}
+		if elems, ia, isTab := c15TableElems(ci.Common().Value); isTab {
+			if !c15TableLoopRunsAll(ia, in) {
+				x.mustUnsure = true
+				return false
+			}
+			// all steps run: the event is passed if some step always passes it
+			for _, e := range elems {
+				fts, unk := x.funcValues(e, env, 0)
+				if unk || len(fts) == 0 {
+					x.mustUnsure = true
+					continue
+				}
+				all := true
+				for _, tg := range fts {
+					if !x.inlinable(tg.Fn) || x.onStack(env, tg.Fn) || tg.Fn == fn {
+						all = false
+						continue
+					}
+					o, n, _ := x.must(tg.Fn, x.activate(tg, ci.Common().Args, env, in, "call"), ev, depth+1)
+					if !o || n == 0 {
+						all = false
+					}
+				}
+				if all {
+					return true
+				}
+			}
+			return false
+		}
 		ts, unk := x.callTargets(ci.Common(), env)
 		if unk {
 			x.mustUnsure = true
@@ -1674,12 +2072,46 @@ func (x *c15X) must(fn *ssa.Function, env *c15Env, ev func(in ssa.Instruction, e
 		}
 		return fail == 0 && pass > 0
 	}
+	// a literal table of steps run by a counted loop executes every step: if one
+	// of them always passes the event, the event has been passed when the loop
+	// is left (the CFG alone also contains the zero-iteration path)
+	tableHeaders := map[*ssa.BasicBlock]bool{}
+	memo := map[ssa.Instruction]bool{}
+	allInstrs(fn, func(in ssa.Instruction) {
+		ci, isCall := in.(ssa.CallInstruction)
+		if !isCall {
+			return
+		}
+		if _, ia, isTab := c15TableElems(ci.Common().Value); isTab && c15TableLoopRunsAll(ia, in) {
+			if memo[in] = hit(in); memo[in] {
+				switch t := ia.Index.(type) {
+				case *ssa.Phi:
+					tableHeaders[t.Block()] = true
+				case *ssa.BinOp:
+					if p, ok := t.X.(*ssa.Phi); ok {
+						tableHeaders[p.Block()] = true
+					}
+				}
+			}
+		}
+	})
 	var ff *FlagFlow
 	ff = &FlagFlow{Fn: fn, Must: true, Transfer: func(in ssa.Instruction, st uint64) uint64 {
 		if _, isD := in.(*ssa.Defer); isD && !ff.Replaying {
 			return st
 		}
+		if v, done := memo[in]; done {
+			if v {
+				return st | 1
+			}
+			return st
+		}
 		if hit(in) {
+			return st | 1
+		}
+		return st
+	}, EdgeTransfer: func(from, to *ssa.BasicBlock, st uint64) uint64 {
+		if tableHeaders[from] && !reachableFrom(to, nil)[from] {
 			return st | 1
 		}
 		return st
